@@ -112,6 +112,11 @@ theorem nodeid_spec {f0 : Nat} (pol : Policy) (st : PS) (l : Lbl) (h : MapInv f0
       · rfl
       · intro b hb
         exact ⟨⟨_, hb⟩, by simp only [sigma, hb, Option.getD_some]⟩
+    | inner s n =>
+      apply generic
+      · rfl
+      · intro b hb
+        exact ⟨⟨_, hb⟩, by simp only [sigma, hb, Option.getD_some]⟩
     | named n =>
       refine ⟨⟨Nat.le_max_left _ _, ExtMap.refl _⟩, ⟨Nat.le_trans h.lo (Nat.le_max_left _ _), ?_, h.inj⟩, trivial, rfl, ?_⟩
       · intro l b hb
